@@ -35,6 +35,40 @@ fn strat_c03_l2() -> BoxedStrategy<Driven> {
     case_strategy(Profile::Truncation, true, 30).prop_map(|case| Driven { driver: "L2".into(), case }).boxed()
 }
 
+fn strat_c02_small(limit: u64) -> BoxedStrategy<Driven> {
+    case_strategy(Profile::Durability, true, 30)
+        .prop_map(move |mut case| {
+            case.index_area_limit = Some(limit);
+            Driven { driver: "L2".into(), case }
+        })
+        .boxed()
+}
+fn strat_c03_small(limit: u64) -> BoxedStrategy<Driven> {
+    case_strategy(Profile::Truncation, true, 30)
+        .prop_map(move |mut case| {
+            case.index_area_limit = Some(limit);
+            Driven { driver: "L2".into(), case }
+        })
+        .boxed()
+}
+fn strat_c02_small_44() -> BoxedStrategy<Driven> {
+    strat_c02_small(44)
+}
+fn strat_c02_small_48() -> BoxedStrategy<Driven> {
+    strat_c02_small(48)
+}
+fn strat_c03_small_44() -> BoxedStrategy<Driven> {
+    strat_c03_small(44)
+}
+fn strat_c03_small_48() -> BoxedStrategy<Driven> {
+    strat_c03_small(48)
+}
+
+/// the process-wide override of the verification hook in /repo (see MANIFEST.hooks)
+pub fn set_index_area_limit(v: u64) {
+    rnacos::raft::filestore::raftlog::verif_hook::set_index_area_limit(v);
+}
+
 fn strat_c02_roll() -> BoxedStrategy<Driven> {
     roll_case_strategy(Profile::Durability).prop_map(|case| Driven { driver: "L2".into(), case }).boxed()
 }
@@ -44,6 +78,12 @@ fn strat_c03_roll() -> BoxedStrategy<Driven> {
 
 pub fn run_driven(d: &Driven, profile: Profile) -> CaseReport {
     if d.driver == "L2" {
+        if let Some(l) = d.case.index_area_limit {
+            // stand-alone use (replays): tiers set it themselves and never mix different limits in one process phase
+            if rnacos::raft::filestore::raftlog::verif_hook::index_area_limit() != l {
+                set_index_area_limit(l);
+            }
+        }
         l2_case_report(&d.case, profile)
     } else {
         l1_case_report(&d.case, profile)
@@ -121,5 +161,25 @@ pub fn main(ctx: &Ctx, profile: Profile) -> i32 {
         }
         (fail, roll.join().unwrap_or(None))
     });
-    finish(ctx, &stats, fin(), fail_main.or(fail_roll))
+    let mut fail = fail_main.or(fail_roll);
+    // small-file tiers: with the verification hook a log file is full after 128 (limit 44) / 256 (limit 48) records, so
+    // ordinary L2 histories cross several real file switches (truncation into closed files, compaction pointers and
+    // split-off with several files, reopen with a multi-file catalogue). One limit at a time, process-wide.
+    if fail.is_none() && !only_roll {
+        let n_small = ctx.tier.pick(300u32, 5_000u32);
+        for limit in [44u64, 48u64] {
+            if fail.is_some() {
+                break;
+            }
+            set_index_area_limit(limit);
+            fail = match (profile, limit) {
+                (Profile::Durability, 44) => run_cases(ctx, &stats, strat_c02_small_44 as fn() -> _, n_small, cores(), 1500, move |c| run_driven(c, Profile::Durability)),
+                (Profile::Durability, _) => run_cases(ctx, &stats, strat_c02_small_48 as fn() -> _, n_small, cores(), 1500, move |c| run_driven(c, Profile::Durability)),
+                (Profile::Truncation, 44) => run_cases(ctx, &stats, strat_c03_small_44 as fn() -> _, n_small, cores(), 1500, move |c| run_driven(c, Profile::Truncation)),
+                (Profile::Truncation, _) => run_cases(ctx, &stats, strat_c03_small_48 as fn() -> _, n_small, cores(), 1500, move |c| run_driven(c, Profile::Truncation)),
+            };
+            set_index_area_limit(0);
+        }
+    }
+    finish(ctx, &stats, fin(), fail)
 }
